@@ -353,6 +353,8 @@ pub fn render(case: &Value) -> Option<Vec<String>> {
         "names" => render_names(it),
         "attrs" => render_attr(it),
         "inherit" => render_inherit(it).0,
+        // MC_Syntax_inject: a generated program with one injected violation, printed token by token
+        "inject" => case["files"].as_array().cloned().unwrap_or_default().iter().map(|f| crate::fam_syntax::render_file(&f["out"])).collect(),
         "attrlists" => {
             let list: Vec<String> = strs(&it["as"]).iter().map(|a| format!("[{}]", attr_text(a, "valid1"))).collect();
             vec![format!("module M\ninterface I {{ {} op(p: int32) -> bool }}\n", list.join(" "))]
